@@ -226,6 +226,17 @@ def run(prop, cfg, tier, seed):
         p = core.write_replay(prop, "lean_obligation", {"property": prop, "kind": "proof-obligation", "module": cfg["module"],
                                                         "problems": audit["problems"], "broken_obligation": "lake build / axiom audit of " + cfg["module"]})
         printed.append("VIOLATION property=%s replay=%s no-failing-input-found" % (prop, p))
+    # ---- regenerated obligations (translator tie): the repository's own grammars, kernel-checked on every run
+    gram_cov = None
+    if cfg.get("regen"):
+        from . import gram_check
+        gviol, gram_cov = gram_check.for_property(prop)
+        for kind, obj, failing in gviol:
+            nviol += 1
+            obj.update({"property": prop, "kind": kind, "property_fails_on_impl": [obj["why"]] if failing else [],
+                        "broken_obligation": None if failing else "regenerated Lean module of a repository grammar (pv/gram_check.py)"})
+            pth = core.write_replay(prop, kind.replace("/", "_") + "_" + hashlib.md5(obj["why"].encode()).hexdigest()[:10], obj)
+            printed.append("VIOLATION property=%s replay=%s%s" % (prop, pth, "" if failing else " no-failing-input-found"))
     # ---- known findings: listed ones are reported as such, an unlisted one is a violation
     kf_lines, unlisted = findings.replay_known(prop, header, sr)
     for uid in unlisted:
@@ -278,6 +289,8 @@ def run(prop, cfg, tier, seed):
         "samples": sr.samples,
         "explanation": cfg.get("explanation", ""),
     }
+    if gram_cov:
+        cov.update(gram_cov)
     if tool_reports:
         cov["tool_reports"] = tool_reports
         cov["evaluations"] += sum(r.get("evaluations") or 0 for r in tool_reports.values())
